@@ -460,22 +460,29 @@ def fingerprint(v):
 ###############################################################################
 
 
+SIMPLIFY_FUNCS = ('simplify', 'get_conjuncts', 'get_disjuncts', 'is_self_or_field', 'is_true', 'is_false', 'is_not',
+                  'is_number_literal', 'is_negative_number', 'true', 'false')
+
+
 def executable_lines(path):
+    """Executable lines of the simplifier's functions in hpl/rewrite.py (the probe's denominator)."""
     try:
         src = open(path).read()
     except OSError:
         return set()
     code = compile(src, path, 'exec')
     lines = set()
-    stack = [code]
+    stack = [(code, False)]
     while stack:
-        c = stack.pop()
-        for _s, _e, ln in c.co_lines():
-            if ln is not None:
-                lines.add(ln)
+        c, inside = stack.pop()
+        mine = inside or c.co_name in SIMPLIFY_FUNCS or c.co_name.startswith('_simplify') or c.co_name.startswith('_pre_simplify') or c.co_name.startswith('_obvious')
+        if mine:
+            for _s, _e, ln in c.co_lines():
+                if ln is not None and ln != c.co_firstlineno:
+                    lines.add(ln)
         for k in c.co_consts:
             if hasattr(k, 'co_lines'):
-                stack.append(k)
+                stack.append((k, mine))
     return lines
 
 
@@ -651,9 +658,9 @@ def main(argv):
         'inputs_rejected_by_parser': stats.get('inputs_rejected', 0),
         'reject_samples': stats.get('reject_samples', []),
         'vacuous_outputs': stats.get('vacuous_outputs', 0),
-        'rewrite_py_lines_hit': len(lines & allx) if allx else len(lines),
-        'rewrite_py_lines_executable': len(allx),
-        'rewrite_py_lines_never_hit_sample': sorted(allx - lines)[:60],
+        'simplifier_lines_hit': len(lines & allx) if allx else len(lines),
+        'simplifier_lines_executable': len(allx),
+        'simplifier_lines_never_hit': sorted(allx - lines)[:80],
         'real_set_hashseed_slices': slice_info,
         'runs_skipped_for_time': stats.get('runs_skipped_for_time', 0),
         'pythonhashseed': os.environ.get('PYTHONHASHSEED'),
@@ -662,7 +669,7 @@ def main(argv):
         'simulated_time': 'not applicable: no clock in this property',
     }
     assumptions = [
-        'semantics of operators/functions as tabulated in hplsim/refeval.py; where the docs are silent a violation must hold under every admissible reading (strict/short-circuit/Kleene connectives x distinct/written set cardinality)',
+        'semantics of operators/functions as tabulated in hplsim/refeval.py; where the docs are silent a violation must hold under every admissible reading (strict / short-circuit / Kleene connectives); a set literal denotes a set (each value once)',
         'valuations where a comparison lands within 1e-9..1e-6 relative distance are skipped as numerically fragile',
         'INF/NAN constants, str(), bool/int/float of strings, ranges with lower bound above upper bound or non-integer bounds under aggregation are outside the judged workload (unspecified)',
         'hash-order nondeterminism is explored only at the three set() sites of hpl.rewrite (via SimSet) and through per-slice PYTHONHASHSEED variation',
